@@ -156,8 +156,10 @@ theorem ckey_prio {c c' : Cand} (h : ckey c' = ckey c) : c'.prio = c.prio :=
   show (ckey c').prio = (ckey c).prio from congrArg Cand.prio h
 
 theorem ckey_equal {c c' d d' : Cand} (hc : ckey c' = ckey c) (hd : ckey d' = ckey d) : c'.equal d' = c.equal d := by
+  have t1 : c'.tt = c.tt := show (ckey c').tt = (ckey c).tt from congrArg Cand.tt hc
+  have t2 : d'.tt = d.tt := show (ckey d').tt = (ckey d).tt from congrArg Cand.tt hd
   simp only [Cand.equal, Cand.taEqual, ckey_net hc, ckey_net hd, ckey_addr hc, ckey_addr hd, ckey_ty hc, ckey_ty hd,
-    ckey_rel hc, ckey_rel hd]
+    ckey_rel hc, ckey_rel hd, t1, t2, Cand.udpResolved]
 
 /-- a pair keeps its identity, its ends, its validity and the deferred-nomination mark — the mark is consumed only
 by the success response that acts upon it (`S`: the agent has a selected pair afterwards) -/
